@@ -10,6 +10,7 @@ import (
 	"sort"
 	"strconv"
 	"strings"
+	"sync/atomic"
 	"time"
 
 	"verifharness/core"
@@ -73,6 +74,9 @@ func (f *tapFactory) NewBatch(pk string) transport.Batch {
 
 const tickMs = 2
 
+// extra time a whole run may spend waiting for the batcher's last tick on a loaded machine
+var quiesceBudget = 60 * time.Second
+
 func runBatcherImpl(c BatcherCase) (evs []Ev, big, invalid int, terminated bool) {
 	sh := shutdown.NewShutdownHandler()
 	in := make(chan *marshaller.MarshalledMessage)
@@ -96,13 +100,16 @@ func runBatcherImpl(c BatcherCase) (evs []Ev, big, invalid int, terminated bool)
 	done := make(chan struct{})
 	go func() { b.StartBatching(); close(done) }()
 	statsDone := make(chan struct{})
+	var dropped int64
 	go func() {
 		for s := range statsCh {
 			if s.Component == "batcher" && s.StatName == "dropped_too_big" {
 				big += int(s.Value)
+				atomic.AddInt64(&dropped, s.Value)
 			}
 			if s.Component == "batcher" && s.StatName == "dropped_msg_invalid" {
 				invalid += int(s.Value)
+				atomic.AddInt64(&dropped, s.Value)
 			}
 		}
 		close(statsDone)
@@ -197,6 +204,37 @@ func runBatcherImpl(c BatcherCase) (evs []Ev, big, invalid int, terminated bool)
 		}
 	}
 	drain(4 * tickMs * time.Millisecond)
+	// every tick flushes every open batch (negative ages), so after the input stops the output is
+	// complete one tick later.  On a loaded machine the batcher goroutine may not be scheduled within
+	// the few milliseconds above: keep receiving until every fed change is accounted for and every fed
+	// COMMIT has been announced, for at most quiesceBudget of extra waiting per run (a change that
+	// really loses records must not make the run endless).
+	complete := func() bool {
+		fedCh, fedCommit, disp, ann := 0, 0, 0, 0
+		for _, e := range evs {
+			switch e.Kind {
+			case "feed":
+				if e.Msg.Op == "COMMIT" {
+					fedCommit++
+				} else if e.Msg.Op != "BEGIN" {
+					fedCh++
+				}
+			case "batch":
+				disp += len(e.Items)
+			case "seen":
+				ann += len(e.Seen)
+			}
+		}
+		return disp+int(atomic.LoadInt64(&dropped)) >= fedCh && ann >= fedCommit
+	}
+	for !terminated && !complete() && quiesceBudget > 0 {
+		t0 := time.Now()
+		r := step(nil, 20*time.Millisecond)
+		quiesceBudget -= time.Since(t0)
+		if r == "done" {
+			terminated = true
+		}
+	}
 	select {
 	case <-done:
 		terminated = true
@@ -472,11 +510,28 @@ func genBatcherCase(rng *rand.Rand) BatcherCase {
 	if c.Kind.Kinesis != "" && rng.Intn(3) == 0 {
 		bigShare = 1 + rng.Intn(3)
 	}
+	// PostgreSQL delivers transactions in commit order; the BEGIN and change positions of concurrent
+	// transactions interleave, so in half of the cases a transaction's positions start below the
+	// previous transaction's COMMIT (only COMMIT positions increase from one transaction to the next)
+	concurrent := rng.Intn(2) == 0
+	top := wal
 	for t := 0; t < ntx; t++ {
 		txn := strconv.Itoa(7000 + t)
 		key := fmt.Sprintf("%s-%d", txn, 100+t)
+		if concurrent && t > 0 {
+			back := uint64(rng.Intn(200))
+			if wal > 1000+back {
+				wal -= back
+			}
+		}
 		push := func(op, table string, jlen int) {
 			wal += uint64(1 + rng.Intn(50))
+			if op == "COMMIT" && wal <= top {
+				wal = top + uint64(1+rng.Intn(50))
+			}
+			if wal > top {
+				top = wal
+			}
 			if rng.Intn(6) == 0 {
 				c.Pauses = append(c.Pauses, len(c.Msgs))
 			}
